@@ -11,106 +11,16 @@ from vplib import diffcheck
 from vplib import seqengine as se
 
 
-# ------------------------------------------------------------------ reference interpreter
-def _binop(o, a, b):
-    if o == "add":
-        return (a + b) % 256
-    if o == "sub":
-        return (a - b) % 256
-    if o == "min":
-        return min(a, b)
-    if o == "max":
-        return max(a, b)
-    if o == "and":
-        return a & b
-    if o == "or":
-        return a | b
-    if o == "eq":
-        return int(a == b)
-    if o == "lt":
-        return int(a < b)
-    if o == "shr":
-        return a >> (b % 8)
-    raise ValueError(o)
-
-
-class Ref:
-    """From-scratch evaluation of a program at the current inputs/cells: per node its value,
-    the values it pushes (push order) and the functions it calls (call order)."""
-
-    def __init__(self, nodes, nk, inputs, cells):
-        self.nodes, self.nk, self.inputs, self.cells = nodes, nk, inputs, cells
-        self.memo = {}
-
-    def node(self, fam, key):
-        if (fam, key) in self.memo:
-            return self.memo[(fam, key)]
-        pushes, callees = [], []
-        e = self.nodes.get((fam, key))
-        v = self.ev(e, pushes, callees) if e is not None else 0
-        self.memo[(fam, key)] = (v, pushes, callees)
-        return self.memo[(fam, key)]
-
-    def ev(self, e, pushes, callees):
-        t = e[0]
-        if t == "lit":
-            return int(e[1])
-        if t == "in":
-            return self.inputs[(int(e[1]), int(e[2]))]
-        if t == "call":
-            k = self.ev(e[2], pushes, callees) % self.nk
-            callees.append((int(e[1]), k))
-            return self.node(int(e[1]), k)[0]
-        if t == "cell":
-            return self.cells.get(int(e[1]), 0)
-        if t in ("touch", "panicif"):
-            return 0
-        if t == "op":
-            a = self.ev(e[2], pushes, callees)
-            b = self.ev(e[3], pushes, callees)
-            return _binop(e[1], a, b)
-        if t == "if":
-            return self.ev(e[2], pushes, callees) if self.ev(e[1], pushes, callees) != 0 else self.ev(e[3], pushes, callees)
-        if t == "acc":
-            v = self.ev(e[1], pushes, callees)
-            pushes.append(v)
-            return v
-        raise ValueError(t)
-
-    def accumulated(self, fam, key):
-        out, seen = [], set()
-
-        def visit(q):
-            if q in seen:
-                return
-            seen.add(q)
-            _, pushes, callees = self.node(*q)
-            out.extend(pushes)
-            for c in callees:
-                visit(c)
-        visit((fam, key))
-        return out
+from vplib.refinterp import Ref, case_sections
 
 
 def oracle(case, impl_lines, model_lines):
     """Implementation only: every `accumulated` returns the reference interpreter's depth-first
     collection of a fresh evaluation at the current inputs, and every `get` its value."""
     a = se.split_lines(impl_lines)
-    tree = se.parse_sx(case)
-
-    def sec(name):
-        return next((x for x in tree[2:] if isinstance(x, list) and x and x[0] == name), [name])[1:]
-    cfg = {x[0]: x[1:] for x in sec("cfg") if isinstance(x, list)}
-    nk = int(cfg["nk"][0])
-    inputs = {}
-    for i in range(max(int(cfg["ni"][0]), nk)):
-        for f in range(3):
-            inputs[(i, f)] = 0
-    for i, f, v in sec("ival"):
-        inputs[(int(i), int(f))] = int(v)
-    nodes = {(int(n[1]), int(n[2])): n[3] for n in sec("prog")}
+    nk, _ni, inputs, nodes, hist = case_sections(se.parse_sx(case))
     cells = {}
-    for i, op in enumerate(sec("hist")):
+    for i, op in enumerate(hist):
         got = a["R"].get(i)
         if got is None:
             return None
@@ -122,7 +32,7 @@ def oracle(case, impl_lines, model_lines):
             ref = Ref(nodes, nk, inputs, cells)
             try:
                 if op[0] == "get":
-                    want = "ret %d" % ref.node(int(op[1]), int(op[2]))[0]
+                    want = "ret %d" % ref.node(int(op[1]), int(op[2])).value
                 else:
                     want = "acc [%s]" % ",".join(str(v) for v in ref.accumulated(int(op[1]), int(op[2])))
             except RecursionError:
